@@ -278,7 +278,8 @@ def null_position_rule(program, res, backends, rule="C18-S5"):
         res.analysed(pe)
         wsorts = [c for c in ast.walk(pe.node) if isinstance(c, ast.Call) and isinstance(c.func, ast.Attribute) and c.func.attr == "sort"]
         if not wsorts:
-            raise AnalysisError("Polars _extend_step: window sort not found")
+            # another way of ordering the window (e.g. over(order_by=...)): where it puts missing keys is not decided here (C27-S1/S2 examine it)
+            res.abstain(rule, "Polars _extend_step: position of missing order keys", "no frame sort found")
         for c in wsorts:
             kws = {k.arg: k.value for k in c.keywords}
             nl = kws.get("nulls_last")
